@@ -30,7 +30,8 @@ LEVEL_TEXT = ("Exploration: thousands of round trips over generated trees (all s
               "chains, high-degree stars, values on 4-decimal rounding ties, huge / tiny / negative-"
               "zero values, all type codes) x id offsets {0,1,2,7,1000,2^30} x source kinds (text "
               "stream, byte stream, file path) x header options x comment sets, with several writes "
-              "per tree object. Held = held on those executions.")
+              "per tree object. Held = held on those executions."
+              " A second tree of the same text length is written to the same path right after a read and read again.")
 LEVEL_NOTE = ("Trusts decimal.Decimal for the rounding reference and Python's float parser; comments "
               "are single-line and never start with the column banner (the reader documents "
               "dropping that line).")
@@ -43,7 +44,7 @@ ASSUMPTIONS = [
 ]
 REQUIRED = ["roundtrips", "src_text", "src_bytes", "src_path", "offset_0", "offset_big",
             "rounding_tie_values", "comments_compared", "audit_file_opens", "rewrites_same_object",
-            "trees_with_int64_ids",
+            "trees_with_int64_ids", "same_path_rewritten_then_read",
             "tap_to_swc", "tap_parse_swc", "tap_reset_index_"]
 FLOOR = {"quick": 500, "thorough": 10000}
 SHARDS = {"quick": 8, "thorough": 16}
@@ -207,6 +208,30 @@ def _exec(ctx, case, tmp):
                 return ctx.violation("comments-changed",
                                      f"{what}: {nm} comments {g[:6]!r} (n={len(g)}), expected "
                                      f"{e[:6]!r} (n={len(e)})", case)
+        if kind == "path" and case.get("rewrite_same_path"):
+            # another tree of the same text length goes to the *same* path right away (same
+            # second, same size): the next read must return the new content
+            spec_b = dict(spec, x=spec["y"].copy(), y=spec["x"].copy())
+            if int(spec["type"].max()) < 7:
+                spec_b["type"] = (spec["type"] + 1).astype(spec["type"].dtype)
+            tree_b = G.build(spec_b, with_tag=False, comments=list(comments),
+                             source=case.get("tsource", ""))
+            tree_b.to_swc(fname, **kw)
+            tb = Tree.from_swc(fname)
+            dfb, _ = su.read_swc(fname)
+            ctx.count("same_path_rewritten_then_read")
+            wb = {k: ref_round(spec_b[k]) for k in "xyzr"}
+            for k in "xyzr":
+                if len(tb) != n or not np.array_equal(tb.ndata[k], wb[k]) or \
+                        not np.array_equal(dfb[k].to_numpy().astype(np.float32), wb[k]):
+                    return ctx.violation("stale-read-after-rewrite",
+                                         f"{what}: a second tree written to the same path was not "
+                                         f"what the next read returned (column {k})", case)
+            if not np.array_equal(tb.type(), spec_b["type"]) or \
+                    not np.array_equal(dfb["type"].to_numpy(), spec_b["type"]):
+                return ctx.violation("stale-read-after-rewrite",
+                                     f"{what}: a second tree written to the same path was not what "
+                                     f"the next read returned (types)", case)
         if tree.comments != comments:
             return ctx.violation("writer-mutates-tree", f"{what}: writing changed the tree's own "
                                                         f"comment list to {tree.comments[:5]!r}", case)
@@ -255,6 +280,7 @@ def run(ctx):
                     "cset": int(rng.integers(0, len(COMMENT_SETS))),
                     "tsource": str(rng.choice(["", "", "/data/neuron.swc"])),
                     "wide_ids": bool(rng.random() < 0.35),
+                    "rewrite_same_path": bool(rng.random() < 0.5),
                     "writes": writes}
             ctx.case(case, nontrivial=rc["n"] >= 2 and rc["shape"] != "single",
                      klass=f"{case['vclass']}/{rc['shape']}")
